@@ -43,6 +43,28 @@ def build(t, nice_only=False, kinds=("continuous", "slotted"), holds=False, chol
     if cholds and (cmode // 5) % 2 == 1 and n_items % 4 == 0:
         # collection time: the destination is handed the head (granted retrieval) and takes it off the belt only later
         case["chold"] = [HOLD[(pw[(i + 1) % len(pw)] + 3 * cw[i % len(cw)]) % len(HOLD)] for i in range(n)]
+    if (cholds or ccancels) and (cmode // 5) % 2 == 1 and n_items % 4 in (2, 3):
+        # a fan-out source of items that picked another edge: some granted admissions are withdrawn 0-2 kernel hops after
+        # the grant, nothing enters; an extra request follows so that the number of items stays the same
+        pf = [1 + (pw[i % len(pw)] + i) % 3 if (pw[i % len(pw)] + cw[(i + 1) % len(cw)]) % 3 == 0 else 0 for i in range(n)]
+        prod2, pf2 = [], []
+        for i in range(n):
+            if pf[i]:
+                prod2.append(prod[i])
+                pf2.append(pf[i])
+                prod2.append(PW[(pw[i % len(pw)] + 2) % len(PW)])
+                pf2.append(0)
+            else:
+                prod2.append(prod[i])
+                pf2.append(0)
+        case["producer"] = prod2
+        case["pcancel"] = pf2
+        if case.get("hold"):
+            h2, k = [], 0
+            for f_ in pf2:
+                h2.append(0 if f_ else case["hold"][min(k, len(case["hold"]) - 1)])
+                k += 0 if f_ else 1
+            case["hold"] = h2
     if (cholds or ccancels) and (cmode // 5) % 2 == 1 and n_items % 4 in (1, 2):
         # a fan-in destination that picked another edge: some granted retrievals are withdrawn in the instant of the grant
         # (extra consumer requests, so that every item can still be taken)
